@@ -62,12 +62,16 @@ definitions of the members' own struct types, recursively — plus every aspect
 listed in `Ignored`): re-attach is accepted iff the COMPARED part of the meaning
 is unchanged.  `equivalentCallFull` is `Ast.EquivalentCall` as repaired for F20:
 `CallStm.EquivalentTo` on the top-level calls, then `structComparer.call`.
-What it ignores, exactly as the Go code does, is the `ignored` component —
+What it ignores, as the Go code does, is the `ignored` component —
 constructor by constructor `Ignored.calleeName`, `.volatile`, `.stageSrc`,
 `.resources`, `.retain`, `.chunkParams`, `.fileTypeName` (scalar file kinds
 only), `.outName` (stage outputs, non-file pipeline outputs), `.help` — and what
 is not meaning at all (comments, whitespace, every ordering, include structure,
-unreachable callables and types).  Each ignored aspect has its own edit class
+unreachable callables and types).  The enumeration covers the CALL tree; in the
+struct-definition pass the code also ignores the help strings and output file names
+of struct MEMBERS (and the file-type name of a scalar file member): those are left
+out of `tyTree` but are NOT `Ignored` constructors — the `ignored` component is a
+lower bound of what Go ignores, not an exact list.  Each ignored aspect has its own edit class
 in the correspondence harness, which checks that the real code accepts it AND
 that the model sees exactly that aspect change.  Hypotheses (checked by the
 driver on every real AST): the compiled ASTs are well formed; member names of
@@ -186,6 +190,26 @@ theorem struct_definition_change_refused :
     ∧ equivalentCallFull false true (ptProg [(kX, pInt), (kY, pInt)]) (ptProg [(kX, pInt)]) = false := by
   decide
 
+/-! The same through NESTING (audit pass 2, LOW-2): stage `A(in Box[] x)`,
+`struct Box(map<Pt> A, int y)`, and the member is added to `Pt` — reached through an
+array, a struct member and a typed map. -/
+private def kBox : Key := [66, 111, 120]
+private def pPtMap : Param := { tname := kPt, arrayDim := 0, mapDim := 1, fileKind := 0, outName := [] }
+private def pBoxArr : Param := { tname := kBox, arrayDim := 1, mapDim := 0, fileKind := 0, outName := [] }
+private def boxProg (fields : List (Key × Param)) : FullProg :=
+  { core := { tab := [(kA, .stage false [(kX, pBoxArr)] [])],
+              call := { id := kA, decId := kA, binds := [(kX, .atom .null)], mods := mods0 } },
+    extras := [], structs := [(kBox, [(kA, pPtMap), (kY, pInt)]), (kPt, fields)] }
+
+example :
+    (boxProg [(kX, pInt)]).core.wf = true ∧ structsWf (boxProg [(kX, pInt)]).structs = true
+    ∧ structsWf (boxProg [(kX, pInt), (kY, pInt)]).structs = true
+    ∧ equivalentCallFull false true (boxProg [(kX, pInt)]) (boxProg [(kX, pInt)]) = true
+    ∧ equivalentCallFull false true (boxProg [(kX, pInt)]) (boxProg [(kX, pInt), (kY, pInt)]) = false
+    ∧ equivalentCallFull false true (boxProg [(kX, pInt), (kY, pInt)]) (boxProg [(kX, pInt)]) = false
+    ∧ equivalentCallFull false false (boxProg [(kX, pInt)]) (boxProg [(kX, pInt), (kY, pInt)]) = true := by
+  decide
+
 /-- Negative witness (F20): without the second pass the same change is accepted. -/
 theorem struct_definition_change_accepted_without_second_pass :
     equivalentCallFull false false (ptProg [(kX, pInt)]) (ptProg [(kX, pInt), (kY, pInt)]) = true := by
@@ -280,17 +304,30 @@ theorem lock_file_created_exclusively :
 /-- Regenerated obligation (repair of the "refused start deletes the running
 pipestance" defect): the error branch of `Runtime.InvokePipeline` after
 `instantiatePipeline` — where a start that lost the race for the lock arrives with
-PipestanceLockedError — does not remove the pipestance directory unconditionally.
+PipestanceLockedError, or that failed even before `Lock()` — removes the pipestance
+directory only under the guard "this call took the lock".
 (False on a tree where it does: negative witness `lts_refused_start_removes_owners_lock`.) -/
 theorem refused_start_keeps_directory :
     Gen.c15RefusedStartRemovesDir_extracted = true ∧ Gen.c15RefusedStartRemovesDir = false := by decide
+
+/-- Regenerated obligation (repair of the ignored lock-file create error): when the
+exclusive create of `_lock` fails with an error other than "exists", `Pipestance.Lock`
+RETURNS that error instead of logging it and going on (registering the handler, writing
+the file non-exclusively, returning nil).
+(False on a tree where it goes on: negative witness `lts_create_error_breaks_exclusion`.) -/
+theorem lock_create_error_is_returned :
+    Gen.c15LockCreateErrorIgnored_extracted = true ∧ Gen.c15LockCreateErrorIgnored = false := by decide
 
 open Martian.LockLTS in
 /-- Mutual exclusion for EVERY interleaving of attach attempts, unlocks, graceful
 and ungraceful deaths — `Lock()` calls may overlap arbitrarily — provided the
 operator removes `_lock` only when no process owns the pipestance: at most one
 process owns the pipestance, and while one does the lock file exists.
-(Without the operator assumption: `lts_rmLock_under_live_owner`.) -/
+(Without the operator assumption: `lts_rmLock_under_live_owner`.)  `disciplined` also
+excludes `acquireErr` — a lock-file create error that `Lock()` IGNORES; the repaired code
+returns such an error (`acquireFail`, allowed; obligation `lock_create_error_is_returned`,
+`lts_create_error_changes_nothing`), starts that are refused (`start`) or fail before
+`Lock()` (`startFail`) are allowed too.  Old code: `lts_create_error_breaks_exclusion`. -/
 theorem lts_mutual_exclusion (tr : List Act) (s : St)
     (h : run Gen.c15RegisterFirst Gen.c15RefusedStartRemovesDir disciplined init tr = some s) :
     s.holders.length ≤ 1 ∧ (s.holders ≠ [] → s.lockFile = true) := by
@@ -329,18 +366,50 @@ theorem lts_refused_start_removes_owners_lock :
   exact ⟨_, rfl, rfl⟩
 
 open Martian.LockLTS in
-/-- Negative witness for the second assumption of `lts_mutual_exclusion` (`disciplined`
+/-- …and so does a start that FAILS before it reaches `Lock()` (its own source does not
+parse / compile, call-graph error): since the second repair (`InvokePipeline` removes the
+contents of the folder only when this call took the lock) it changes nothing, in ANY state. -/
+theorem lts_failed_start_changes_nothing (s : St) (p : Nat) :
+    step Gen.c15RegisterFirst Gen.c15RefusedStartRemovesDir s (.startFail p) = (s, false) := by
+  rw [handler_registered_after_check.2, refused_start_keeps_directory.2]
+  simp [step]
+
+open Martian.LockLTS in
+/-- Negative witness (the residual defect, reproduced by the start-race stream with a second
+starter whose source does not compile): a failed start that removes the directory removes
+the owner's lock, and a third mrp becomes a second owner. -/
+theorem lts_failed_start_removes_owners_lock :
+    ∃ s, run false true disciplined init [.start 1, .register 1, .startFail 2, .start 3] = some s
+      ∧ s.holders = [3, 1] := by
+  exact ⟨_, rfl, rfl⟩
+
+open Martian.LockLTS in
+/-- Negative witness for the exclusion of `acquireErr` in `lts_mutual_exclusion` (`disciplined`
 excludes `acquireErr`): when the create of `_lock` fails with an error other than
 "exists", `Lock()` logs it, REGISTERS the signal handler and returns nil; if that
 process later dies through the handler path it removes the lock of whoever owns the
-pipestance by then, and a further mrp attaches.  (On the real code the callers of
-`Lock()` fail on the next operation — "Pipestance is in read only mode" — and
-`Unlock()`, which unregisters the handler, so the history does not arise through
-`ReattachToPipestance`; the harness checks exactly that on every run.) -/
+pipestance by then, and a further mrp attaches.  This was the code before the repair
+(obligation `lock_create_error_is_returned`).  (Through `ReattachToPipestance` the
+callers of `Lock()` then failed on the next operation — "Pipestance is in read only
+mode" — and `Unlock()`ed, which unregisters the handler; through `InvokePipeline` the
+start went on WITHOUT a lock file: reproduced by the start-race stream when a failing
+second starter removed the still-empty directory under the winner, ENOENT.) -/
 theorem lts_create_error_breaks_exclusion :
     ∃ s, run false false anything init [.acquireErr 1, .acquire 2, .register 2, .signal 1, .acquire 3] = some s
       ∧ s.holders = [3, 2] := by
   exact ⟨_, rfl, rfl⟩
+
+open Martian.LockLTS in
+/-- Under the regenerated fact the outcome "create fails with another error" of the code
+(`createErr Gen.c15LockCreateErrorIgnored p`) changes nothing in any state and is an
+action `disciplined` allows: `lts_mutual_exclusion` therefore covers every history of the
+repaired code in which lock-file creates fail with arbitrary errors; its exclusion of
+`acquireErr` excludes a behaviour the code no longer has. -/
+theorem lts_create_error_changes_nothing (s : St) (p : Nat) :
+    step Gen.c15RegisterFirst Gen.c15RefusedStartRemovesDir s (createErr Gen.c15LockCreateErrorIgnored p) = (s, false)
+    ∧ disciplined s (createErr Gen.c15LockCreateErrorIgnored p) = true := by
+  rw [lock_create_error_is_returned.2]
+  simp [createErr, step, Martian.LockLTS.disciplined]
 
 open Martian.LockLTS in
 /-- …and neither does the later death (graceful or not) of a process that does
